@@ -1,4 +1,10 @@
 // C07: one arrival at a BarrierImpl holding P_Q waiters (P_BLK: which of them are blocked in wait_for), expected count symbolic.
+#ifndef P_ROUND2
+#define P_ROUND2 0
+#endif
+#ifndef P_MORE
+#define P_MORE 0 // second-use shapes: how many more actors the barrier expects than will have arrived after the checked arrival
+#endif
 #include "ksync.h"
 #include "src/kernel/activity/BarrierImpl.hpp"
 using activity::BarrierImpl;
@@ -6,17 +12,35 @@ using activity::BarrierImpl;
 extern "C" void harness_barrier()
 {
   mk_actors();
+#if P_ROUND2
+  // second use of the same barrier, through the real constructor and API only: a barrier of concrete size P_Q + 1 + P_MORE first releases one complete
+  // group (actors P_Q+1 .. ), then P_Q actors arrive again and the checked arrival follows
+  const unsigned expected = P_Q + 1 + P_MORE;
+  BarrierImpl* b          = new BarrierImpl(static_cast<int>(expected));
+  for (unsigned i = 0; i < expected; i++) {
+    ActorImpl* a = actors[(P_Q + 1 + i) % NA];
+    auto r       = b->acquire_async(a);
+    if (i + 1 == expected)
+      CHECK(r->granted_ && b->ongoing_acquisitions_.empty(), "first use: the group is released when the last actor arrives");
+    else
+      CHECK(not r->granted_, "first use: nobody is released before the last actor arrives");
+  }
+  activity::BarrierAcquisitionImplPtr acqs[P_Q + 1];
+#else
   unsigned expected = nondet_uint();
   ASSUME(expected >= 1 && expected > P_Q); // invariant: fewer waiters than the barrier size
   // build the queue with the real API on a barrier that is large enough, then set the symbolic size
   BarrierImpl* b = new BarrierImpl(P_Q + 2);
   activity::BarrierAcquisitionImplPtr acqs[P_Q + 1];
+#endif
   for (int q = 0; q < P_Q; q++) {
     acqs[q] = b->acquire_async(actors[q]);
     if ((P_BLK >> q) & 1)
       acqs[q]->wait_for(actors[q], -1);
   }
+#if not P_ROUND2
   b->expected_actors_ = expected;
+#endif
   reset_answers();
   ActorImpl* iss = actors[P_Q];
   auto res       = b->acquire_async(iss);
